@@ -103,7 +103,7 @@ theorem number_insert_gen (c : Cfg) (o : POpts) (hG : GenStrip c o) (hresI : Res
       (∀ x, s[b.index]? = some x → c.isSep x = false))
     (hN : IntNormal c o s b) (p neg fv : Bool) (n' : Number) (cnt' : Nat)
     (h' : parseNumber c p o b' neg fv = .ok (n', cnt')) (hcnt' : cnt' = (nonSep c s).length) :
-    ∃ n, parseNumber c p o b neg fv = .ok (n, s.length) ∧ NumRel c n n' := by
+    ∃ n, parseNumber c p o b neg fv = .ok (n, s.length) ∧ NumRel c n n' ∧ SlicesOK c n := by
   have hsl : b.slc = s := hr.1
   have hvb : Bytes.Valid b := by unfold Bytes.Valid; rw [hsl]; exact hv
   -- the integer phase
@@ -215,8 +215,9 @@ theorem number_insert_gen (c : Cfg) (o : POpts) (hG : GenStrip c o) (hresI : Res
           obtain ⟨rfl, hc2⟩ := h'
           have hend : ep.byte.index = s.length :=
             end_of_strip c s ep.byte.index hve hNe (by rw [← hrE.2.2.1, hc2, hcnt'])
-          refine ⟨_, by simp only [pure, Except.pure, hend]; rfl, ?_⟩
-          simp only [NumRel, hsl, and_self]
+          refine ⟨_, by simp only [pure, Except.pure, hend]; rfl, ?_, ?_⟩
+          · simp only [NumRel, hsl, and_self]
+          · intro hmd; cases hmd
         · rw [if_neg hle] at h' ⊢
           have hcE : cnt' = ep'.byte.index := manyDigitsPhase_count c o neg _ _ _ _ _ _ _ n' cnt' h'
           have hend : ep.byte.index = s.length :=
@@ -281,9 +282,11 @@ theorem number_insert_gen (c : Cfg) (o : POpts) (hG : GenStrip c o) (hresI : Res
           simp only [hr.2.2.1, hG.format, hG.bytes, Bool.not_false, Bool.and_true, f1, f4, e1] at h' ⊢
           rw [manyClosed_endIdx _ _ _ _ _ _ _ _ _ _ _ _ _ _ ep'.byte.index ep.byte.index, h']
           obtain ⟨g1, g2, _⟩ := manyClosed_fields _ _ _ _ _ _ _ _ _ _ _ _ _ _ _ _ _ h'
-          refine ⟨_, by simp only [Except.map, hend]; rfl, ?_⟩
-          simp only at g1 g2
-          exact ⟨rfl, rfl, rfl, rfl, g1, g2, rfl⟩
+          refine ⟨_, by simp only [Except.map, hend]; rfl, ?_, ?_⟩
+          · simp only at g1 g2
+            exact ⟨rfl, rfl, rfl, rfl, g1, g2, rfl⟩
+          · intro _
+            exact ⟨by simpa [hsl] using hokI, hokF⟩
 
 /-- **none of the digit iterators of the run over `s` stops on a separator**: the cursor after `is_consumed`'s `peek`
 does not stand on one, and neither do the cursors after the integer, fraction and exponent digits -/
@@ -297,7 +300,7 @@ theorem parseFloatSyntax_insert_gen (c : Cfg) (o : POpts) (hG : GenStrip c o) (h
     (hresF : Rescan c .fraction) (s : List Nat) (hb256 : ∀ x ∈ s, x < 256) (hP : NoSepBeforeSign c s)
     (hNS : NonStuck c o s) (fv : Bool) (n' : Number) (cnt : Nat)
     (h : parseFloatSyntax c o false (nonSep c s) fv = .ok (.number n' cnt)) :
-    ∃ n, parseFloatSyntax c o false s fv = .ok (.number n s.length) ∧ NumRel c n n' := by
+    ∃ n, parseFloatSyntax c o false s fv = .ok (.number n s.length) ∧ NumRel c n n' ∧ SlicesOK c n := by
   unfold parseFloatSyntax at h ⊢
   simp only [] at h ⊢
   cases hps : parseMantissaSign c (Bytes.new (nonSep c s)) with
@@ -386,10 +389,10 @@ theorem parseFloatSyntax_insert_gen (c : Cfg) (o : POpts) (hG : GenStrip c o) (h
               subst hcn
               have hlen' : count' = (nonSep c s).length := by
                 simp only [Bytes.bufferLength, h3.2.1] at hfull; exact hfull
-              obtain ⟨n, hn, hrel⟩ := number_insert_gen c o hG hresI hresF s hb256 hP b0 b1' hr00 hv0
+              obtain ⟨n, hn, hrel, hsok⟩ := number_insert_gen c o hG hresI hresF s hb256 hP b0 b1' hr00 hv0
                 (by rw [hsp.2.1]; exact hic1.1) (by rw [hsp.2.2.1]; exact hic1.2) (Or.inr hN0) hIN false neg fv nn' count'
                 hpn hlen'
-              refine ⟨n, ?_, hrel⟩
+              refine ⟨n, ?_, hrel, hsok⟩
               simp only [hn, bind, Except.bind, Bytes.bufferLength, hb0s, if_true, pure, Except.pure]
             · cases hcn
 
